@@ -6,6 +6,9 @@ from dprules import extract, facts, analysis, inline
 crates = facts.load_dir(extract.facts_for("full")[0])
 prog = analysis.Prog(crates)
 if '--raw' not in sys.argv:
+    # (the same pipeline as ./check: devirtualised futures, representation pre-pass, role-keeping normal form)
+    inline.devirtualise_boxed_futures(prog)
+    inline.normalise(prog, inline.DEADPOOL_CRATES, (), only_newtypes=True)
     inline.normalise(prog, inline.DEADPOOL_CRATES, inline.default_keep(prog))
 for n, b in sorted(prog.bodies.items()):
     if sys.argv[1] in n:
